@@ -15,6 +15,11 @@ func (cs ClientState) ExportMetadata(store sdk.KVStore) []exported.GenesisMetada
 		gm = append(gm, clienttypes.NewGenesisMetadata(key, val))
 		return false
 	})
+	// the iteration keys are needed to prune expired consensus states after an import
+	IterateConsensusStateAscending(store, func(height exported.Height) bool {
+		gm = append(gm, clienttypes.NewGenesisMetadata(IterationKey(height), GetIterationKey(store, height)))
+		return false
+	})
 	if len(gm) == 0 {
 		return nil
 	}
